@@ -75,18 +75,18 @@ func ZZ_C06_Digits() {
 	}
 	switch zz.Param("shape") {
 	case 0:
-		zzParseAndEvaluateOpt("2020-01-01\n  " + digits("h", n) + "h\n", false)
+		zzParseAndEvaluateOpt("2020-01-01\n  "+digits("h", n)+"h\n", false)
 	case 1:
-		zzParseAndEvaluateOpt("2020-01-01\n  -" + digits("m", n) + "m\n", false)
+		zzParseAndEvaluateOpt("2020-01-01\n  -"+digits("m", n)+"m\n", false)
 	case 2:
-		zzParseAndEvaluateOpt("2020-01-01 (" + digits("h", n) + "h!)\n", false)
+		zzParseAndEvaluateOpt("2020-01-01 ("+digits("h", n)+"h!)\n", false)
 	case 3:
-		zzParseAndEvaluateOpt("2020-01-01\n  " + digits("h", n) + "h" + digits("m", 2) + "m\n", false)
+		zzParseAndEvaluateOpt("2020-01-01\n  "+digits("h", n)+"h"+digits("m", 2)+"m\n", false)
 	case 4:
-		zzParseAndEvaluateOpt("2020-01-01\n  " + digits("h", n) + ":00-9:00\n", true)
+		zzParseAndEvaluateOpt("2020-01-01\n  "+digits("h", n)+":00-9:00\n", true)
 	case 5:
 		// two large entries: the sum can overflow even if each parses
-		zzParseAndEvaluateOpt("2020-01-01\n  " + digits("a", n) + "m\n  " + digits("b", n) + "m\n", false)
+		zzParseAndEvaluateOpt("2020-01-01\n  "+digits("a", n)+"m\n  "+digits("b", n)+"m\n", false)
 	}
 }
 
